@@ -473,3 +473,79 @@ Example C18_ex_drop_january_only :
   segment_weights_on "three_month_weighted" true [1]%Z 1
   = Some [("dec-jan-feb-weighted", 1%Q); ("jan-feb-mar-weighted", (1 # 2)%Q); ("nov-dec-jan-weighted", (1 # 2)%Q)].
 Proof. vm_compute. split; reflexivity. Qed.
+
+(* ==================================================================================================================== *)
+(* The value predicted for an hour: CalTRACKSegmentModel.predict and SegmentedModel.predict (Model/CalTrackPredict.v).  *)
+(* ==================================================================================================================== *)
+From V Require Import Model.CalTrackPredict Proofs.CalTrackPredictProofs.
+
+(* for any frames (occupancy lookups, keep-flags), any segment models and parameters, any part of the year: the prediction
+   of an hour is the value of its own month's segment model on that hour's features, NaN when that model is absent *)
+Theorem C18_hour_prediction_is_own_value : forall frames models present m how T, In m months -> In m present ->
+  exists own, own_segment (tbl "three_month_weighted") m = Some own /\
+    hour_prediction frames models present "three_month_weighted" m how T =
+    (if mem_str own (map fst models) then option_map (Qmult 1) (segment_value frames models own how T) else None).
+Proof. exact hour_prediction_own_l. Qed.
+Print Assumptions C18_hour_prediction_is_own_value.
+
+(* ... so nothing about the other eleven segments enters: two models that agree on the own segment predict the same *)
+Theorem C18_hour_prediction_independent_of_other_segments :
+  forall frames models frames' models' present present' m how T, In m months -> In m present -> In m present' ->
+  exists own, own_segment (tbl "three_month_weighted") m = Some own /\
+    (assoc own frames = assoc own frames' -> assoc own models = assoc own models' ->
+     hour_prediction frames models present "three_month_weighted" m how T =
+     hour_prediction frames' models' present' "three_month_weighted" m how T).
+Proof. exact hour_prediction_independent_l. Qed.
+Print Assumptions C18_hour_prediction_independent_of_other_segments.
+
+(* closed form of a segment model's answer for an occupied / unoccupied hour with a finite temperature *)
+Theorem C18_occupied_value : forall p how c t eo eu, lookup_how how (sp_how p) = Some c ->
+  let r := feature_row QOps true (Some true) (Some t) eo eu in
+  exists v, segment_predict p how (fst r) (snd r) = Some v /\ (v == c + dot (sp_occ p) (bin_features QOps t eo))%Q.
+Proof. exact occupied_value_l. Qed.
+Print Assumptions C18_occupied_value.
+
+Theorem C18_unoccupied_value : forall p how c t eo eu, lookup_how how (sp_how p) = Some c ->
+  let r := feature_row QOps true (Some false) (Some t) eo eu in
+  exists v, segment_predict p how (fst r) (snd r) = Some v /\ (v == c + dot (sp_unocc p) (bin_features QOps t eu))%Q.
+Proof. exact unoccupied_value_l. Qed.
+Print Assumptions C18_unoccupied_value.
+
+(* the bins hold the temperature exactly once: with one slope on all occupied bins the prediction is c_h + b * T *)
+Theorem C18_occupied_value_linear : forall p how c b t eo eu, lookup_how how (sp_how p) = Some c ->
+  sp_occ p = repeat (Some b) (S (List.length eo)) -> increasing eo ->
+  let r := feature_row QOps true (Some true) (Some t) eo eu in
+  exists v, segment_predict p how (fst r) (snd r) = Some v /\ (v == c + b * t)%Q.
+Proof. exact occupied_linear_l. Qed.
+Print Assumptions C18_occupied_value_linear.
+
+(* no prediction for an hour of the week the segment model has no parameter for, or for a NaN temperature *)
+Theorem C18_no_hour_of_week_parameter : forall p how o u, lookup_how how (sp_how p) = None -> segment_predict p how o u = None.
+Proof. exact no_how_parameter_l. Qed.
+Print Assumptions C18_no_hour_of_week_parameter.
+
+Theorem C18_nan_temperature_not_predicted : forall p how occ eo eu,
+  let r := feature_row QOps true occ None eo eu in segment_predict p how (fst r) (snd r) = None.
+Proof. exact nan_temperature_l. Qed.
+Print Assumptions C18_nan_temperature_not_predicted.
+
+(* witnesses: a January hour (hour of week 5, 50 degrees, occupied, endpoints 30 and 65 kept) of a model whose January
+   segment has c_5 = 2 and occupied slopes 1/2, 1/4, 1: 2 + 1/2*30 + 1/4*20 + 0 = 22; February's parameters do not matter *)
+Definition ex_frames : frames_t :=
+  [("dec-jan-feb-weighted", (repeat true 168, [true; false; false; true; false; false], [false; false; false; false; false; false]));
+   ("jan-feb-mar-weighted", (repeat false 168, [false; false; false; false; false; false], [false; false; false; false; false; false]))].
+Definition ex_models (feb : Q) : models_t :=
+  [("dec-jan-feb-weighted", Some {| sp_how := [(5%Z, 2%Q)]; sp_occ := [Some (1 # 2); Some (1 # 4); Some 1]%Q; sp_unocc := [Some 7%Q] |});
+   ("jan-feb-mar-weighted", Some {| sp_how := [(5%Z, feb)]; sp_occ := [Some 3%Q]; sp_unocc := [Some 9%Q] |})].
+Example C18_ex_hour_prediction :
+  option_map Qred (hour_prediction ex_frames (ex_models 100) [1; 2]%Z "three_month_weighted" 1 5 (Some 50%Q)) = Some 22%Q /\
+  option_map Qred (hour_prediction ex_frames (ex_models (-3)) [1]%Z "three_month_weighted" 1 5 (Some 50%Q)) = Some 22%Q /\
+  hour_prediction ex_frames (ex_models 100) [1; 2]%Z "three_month_weighted" 1 6 (Some 50%Q) = None /\
+  hour_prediction ex_frames (ex_models 100) [1; 2]%Z "three_month_weighted" 1 5 None = None /\
+  hour_prediction ex_frames (ex_models 100) [1; 2; 3]%Z "three_month_weighted" 3 5 (Some 50%Q) = None.
+Proof. vm_compute. repeat split. Qed.
+Example C18_ex_linear :
+  let p := {| sp_how := [(5%Z, 2%Q)]; sp_occ := repeat (Some (1 # 2)%Q) 3; sp_unocc := [] |} in
+  let r := feature_row QOps true (Some true) (Some 70%Q) [30; 65]%Q [] in
+  option_map Qred (segment_predict p 5 (fst r) (snd r)) = Some 37%Q.
+Proof. vm_compute. reflexivity. Qed.
